@@ -403,7 +403,7 @@ func (SyllableChordConverter) newScaleNote(v *ast.ChordDegree) (*op.ScaleNote, e
 	}
 	accidental := op.Natural
 	if x := v.Accidental; x != nil {
-		accidental = op.NewAccidental(x.Value())
+		accidental = op.NewAccidental(ast.AccidentalValue(x))
 	}
 	return &op.ScaleNote{
 		Name:       name,
@@ -441,7 +441,7 @@ func (c DegreeChordConverter) Convert(v *ast.Chord) (*input.Chord, error) {
 func (DegreeChordConverter) convertDegree(v *ast.ChordDegree) (note.Degree, error) {
 	s := v.Degree.Value()
 	if x := v.Accidental; x != nil {
-		s += x.Value()
+		s += ast.AccidentalValue(x)
 	}
 	d, err := note.ParseDegree(s)
 	if err != nil {
